@@ -905,6 +905,39 @@ func ruleAccessInflight(c *Ctx) {
 		}
 		return nil
 	}
+	sp.Branch = func(t *Tracer, fr *Frame, i *ssa.If, dir bool) []Ev {
+		// `s.flags&flagAccessCalled != 0` (or a bool member): is a request already outstanding?
+		x, op, k, ok := cmpConst(i.Cond)
+		v := i.Cond
+		neg := false
+		if u, isU := v.(*ssa.UnOp); isU && u.Op == token.NOT {
+			v, neg = u.X, true
+		}
+		if f, _ := fieldLoad(t.Resolve(fr, v).V); f != nil && isFlag(f) {
+			if dir != neg {
+				return []Ev{{Kind: "in-flight"}}
+			}
+			return []Ev{{Kind: "idle"}}
+		}
+		if !ok || k != 0 || (op != token.EQL && op != token.NEQ) {
+			return nil
+		}
+		bo, isB := t.Resolve(fr, x).V.(*ssa.BinOp)
+		if !isB || bo.Op != token.AND {
+			return nil
+		}
+		f, _ := fieldLoad(t.Resolve(fr, bo.X).V)
+		if f == nil {
+			f, _ = fieldLoad(t.Resolve(fr, bo.Y).V)
+		}
+		if f == nil || !isFlag(f) {
+			return nil
+		}
+		if (op == token.NEQ) == dir {
+			return []Ev{{Kind: "in-flight"}}
+		}
+		return []Ev{{Kind: "idle"}}
+	}
 	sp.EdgeLimit = 1
 	tr := runTrace(p, fn, sp)
 	if os.Getenv("RV_DEBUG") != "" {
@@ -926,6 +959,9 @@ func ruleAccessInflight(c *Ctx) {
 				if strings.HasPrefix(e.Kind, "flag-set:") {
 					raised[e.Kind[len("flag-set:"):]] = true
 				}
+			}
+			if j := indexKind(path, "idle"); j < 0 || j > is {
+				bad = "an access request is sent on a path that has not established that none is outstanding: every waiter arriving while a request is in flight sends another one (the answers then race, and the throttle no longer bounds what it governs): " + tr.FmtPath(path)
 			}
 			if len(raised) == 0 {
 				bad = "an access request is sent on a path that has not raised the in-flight flag: every further waiter sends a request of its own and is answered by whichever answer comes first: " + tr.FmtPath(path)
@@ -950,6 +986,24 @@ func ruleAccessInflight(c *Ctx) {
 			if j := lastIndexKindBefore(path, "slot-clear", ih); j < 0 || j < is {
 				bad = "the answer is handed to the waiters while they stay on the waiting list: the next answer is handed to them again (a request is answered twice): " + tr.FmtPath(path)
 			}
+		}
+	}
+	// every place that sends the request has a path on which the answer is handed to the waiters
+	sends := map[ssa.Instruction]bool{}
+	answered := map[ssa.Instruction]bool{}
+	for _, path := range tr.Paths {
+		for i, e := range path {
+			if e.Kind == "send" {
+				sends[e.Instr] = true
+				if indexKind(path[i:], "hand-over") >= 0 {
+					answered[e.Instr] = true
+				}
+			}
+		}
+	}
+	for in := range sends {
+		if !answered[in] {
+			bad = "the access request sent at " + p.InstrPos(in) + " has no path on which its answer is handed to the waiters: every request waiting on it (a re-check after a reset, the subscribe behind it) is never answered"
 		}
 	}
 	if nSend == 0 || nDrain == 0 {
